@@ -11,7 +11,9 @@ import (
 var c03Schemes = []string{"http", "https", "HTTP", "hTTps"}
 var c03Hosts = []string{"a.test", "A.Test", "a.test.", "b.test", "127.0.0.1", "[::1]", "[::1:8080]", "[0:0:0:0:0:0:0:1]", "[::ffff:1.2.3.4]", "[2001:db8::8080]", "[2001:db8::]", "xn--bcher-kva.test", "a%2Etest"}
 var c03Ports = []string{"", "", ":", ":80", ":443", ":8080", ":080", ":8443", ":0"}
-var c03Segs = []string{"a", "A", ".", "..", "%2e", "%2E", "%41", "%61", "~", "%7E", "%7e", "%2F", "%2f", "%20", "é", "%C3%A9", "%c3%a9", "%E9", "%e9", ";p", "a;p=1", ":", "@", "b", "", "%25", "%2541", "+", "%2B", "%00", "*", "%", "\xe9", "\xe8", "\xef\xbf\xbd"}
+var c03Segs = []string{"a", "A", ".", "..", "%2e", "%2E", "%41", "%61", "~", "%7E", "%7e", "%2F", "%2f", "%20", "é", "%C3%A9", "%c3%a9", "%E9", "%e9", ";p", "a;p=1", ":", "@", "b", "", "%25", "%2541", "+", "%2B", "%00", "*", "%", "\xe9", "\xe8", "\xef\xbf\xbd",
+	// ordinary segments that merely begin or end like dot segments
+	"..b", "...", "..%7Euser", ".a", "a.", "a..", ".%2E", "%2e%2E"}
 var c03QueryAtoms = []string{"q=1", "q=2", "a=1&b=2", "b=2&a=1", "q=%E9", "q=%e9", "q=é", "q=%C3%A9", "q=%41", "q=A", "q=a", "q=%7E", "q=~", "q=%2F", "q=/", "q=%20", "q=+", "x", "", "q=%3F", "q=?", "q=a#f",
 	// malformed escapes stay as they are: only valid ones take part in normalisation
 	"q=%7z", "q=p", "x=100%zz", "x=100%00", "q=%g1", "q=%G1", "q=%", "q=%4", "q=%41%", "q=%4g", "q=@",
@@ -139,13 +141,27 @@ func c03Rewrite(t *rapid.T, label, u string) string {
 func C03(t *rapid.T) *world.Scenario {
 	sc := &world.Scenario{Prop: "C03", Backend: "mem"}
 	a := c03URI(t, "a")
+	// In the "swr" family stored responses go stale quickly and are refreshed in the
+	// background, while the caller reuses its request object for something else (it may,
+	// once it has closed the body): what the refresh stores still belongs to the URI asked for.
+	swr := Pct(t, "swr", 12)
 	mk := func(method, u string, hdr [][2]string) world.Step {
 		rq := &world.Req{Method: method, URL: u, Header: hdr}
-		rq.Uncond = world.Reply{Kind: "resp", Status: 200, Body: world.Body{Len: 20}, Header: [][2]string{H("Date", "$T+0"), H("Cache-Control", "max-age=100000"), H("Etag", `"v$S"`)}}
+		cc := "max-age=100000"
+		if swr {
+			cc = "max-age=10, stale-while-revalidate=100000"
+		}
+		rq.Uncond = world.Reply{Kind: "resp", Status: 200, Body: world.Body{Len: 20}, Header: [][2]string{H("Date", "$T+0"), H("Cache-Control", cc), H("Etag", `"v$S"`)}}
 		rq.Cond = &rq.Uncond
+		if swr {
+			rq.ReuseReq = true
+		}
 		return ReqStep(rq)
 	}
 	sc.Steps = append(sc.Steps, mk("GET", a, nil))
+	if swr {
+		sc.Steps = append(sc.Steps, SleepStep(20))
+	}
 	n := rapid.IntRange(1, 3).Draw(t, "nb")
 	for i := 0; i < n; i++ {
 		lbl := "b" + itoa(int64(i))
@@ -177,15 +193,24 @@ func C03(t *rapid.T) *world.Scenario {
 		case 5:
 			method = Pick(t, lbl+"-unk", "FOO", "get", "PROPFIND")
 		}
-		sc.Steps = append(sc.Steps, mk(method, b, hdr))
+		st := mk(method, b, hdr)
+		if method == "GET" && Pct(t, lbl+"-nomethod", 4) {
+			st.Req.EmptyMethod = true
+		}
+		sc.Steps = append(sc.Steps, st)
 	}
 	// come back to URIs already used: what the requests in between stored must not have
 	// displaced or shadowed what these get
-	if Pct(t, "again", 40) {
+	if swr || Pct(t, "again", 40) {
 		k := rapid.IntRange(1, 3).Draw(t, "nagain")
-		first := len(sc.Steps)
+		var reqs []*world.Req
+		for _, st := range sc.Steps {
+			if st.Op == "req" {
+				reqs = append(reqs, st.Req)
+			}
+		}
 		for j := 0; j < k; j++ {
-			prev := sc.Steps[rapid.IntRange(0, first-1).Draw(t, "again"+itoa(int64(j)))].Req
+			prev := reqs[rapid.IntRange(0, len(reqs)-1).Draw(t, "again"+itoa(int64(j)))]
 			sc.Steps = append(sc.Steps, mk("GET", prev.URL, nil))
 		}
 	}
